@@ -928,3 +928,114 @@ def L4_loops_observe_abort(ctx):
             ctx.ob('L4', cf, 'wait-predicate-observes-abort', not bad, f'{len(bad)} path(s) can report blocked without reading the abort flag',
                    site=cf.loc(cf.b['lo']),
                    what='cancel() wakes the waiter; if the predicate ignores the flag the waiter parks again (8 s stall timer, forever under a persistent condition)')
+
+
+def L8_worker_loop(ctx):
+    """run_worker keeps asking for work; next() gives up only when the block is finished or aborted"""
+    f = sched(ctx, 'run_worker')
+    bad = []
+    n = 0
+    for p in feasible(f.paths()):
+        ev = p.events
+        for i, e in enumerate(ev):
+            if e.kind == 'call' and (is_call(e, 'Scheduler::execute_task') or is_call(e, 'Scheduler::validate')):
+                n += 1
+                res = e.d['result']
+                isn = [a for a in ev[i:] if a.kind == 'atom' and mentions(a.d['term'], res) and (a.d['outcome'] in ('true', 'false', 'None', 'Some'))]
+                if not isn:
+                    bad.append((p, 'task result not inspected'))
+                    continue
+                a0 = isn[0]
+                none = (a0.d['outcome'] == 'true' and 'is_none' in show(a0.d['term'])) or a0.d['outcome'] == 'None'
+                if none:
+                    ab = [a for a in ev[idx_of(p, a0):] if a.kind == 'atom' and a.d['term'][0] == 'call' and callee_matches(a.d['term'][1], 'is_aborted')]
+                    nx = [x for x in ev[idx_of(p, a0):] if is_call(x, 'Scheduler::next')]
+                    if ab and ab[0].d['outcome'] == 'false' and not nx:
+                        bad.append((p, 'no next() after a task that produced no follow-up although the run is not aborted'))
+                    if not ab and not nx:
+                        bad.append((p, 'worker leaves the loop without consulting next() or the abort flag'))
+        # dispatch: Execution -> execute_task, Validation -> validate
+        for a in ev:
+            if a.kind == 'atom' and a.d['term'][0] == 'discr' and a.d['outcome'] in ('Execution', 'Validation'):
+                i = idx_of(p, a)
+                nxt = [x for x in ev[i:i + 4] if x.kind == 'call' and (is_call(x, 'Scheduler::execute_task') or is_call(x, 'Scheduler::validate'))]
+                want = 'execute_task' if a.d['outcome'] == 'Execution' else 'validate'
+                if not nxt or not norm_callee(nxt[0].d['callee']).endswith(want):
+                    bad.append((p, f'{a.d["outcome"]} task not dispatched to {want}'))
+    ctx.ob('L8', f, 'worker-keeps-claiming-until-done', n >= 2 and not bad, '; '.join(sorted(set(w for _, w in bad))[:3]), site=f.loc(f.b['lo']),
+           what='a worker that stops asking for work while the block is neither finished nor aborted strands the remaining transactions (with one worker: immediately)')
+    g = sched(ctx, 'next')
+    bad = []
+    n_none = 0
+    for p in feasible(g.paths()):
+        ret = [e for e in p.events if e.kind == 'ret'][0].d['value']
+        if ret[0] == 'agg' and ret[2] == 'None':
+            n_none += 1
+            last = [a for a in p.events if a.kind == 'atom' and a.d['term'][0] in ('call', 'un')][-2:]
+            ok = False
+            for a in last:
+                t = a.d['term']
+                neg = False
+                while t[0] == 'un' and t[1] == 'Not':
+                    t = t[2]
+                    neg = not neg
+                if t[0] == 'call' and (callee_matches(t[1], 'SchedulerContext::finished') or callee_matches(t[1], 'is_aborted')):
+                    if (a.d['outcome'] == 'true') != neg:
+                        ok = True
+            if not ok:
+                bad.append(p)
+    ctx.ob('L8', g, 'next-gives-up-only-when-finished-or-aborted', n_none >= 1 and not bad, f'{len(bad)} path(s) return None while neither finished() nor is_aborted() was observed true: ' + (describe(bad[0], 6) if bad else ''), site=g.loc(g.b['lo']),
+           what='next() returning None ends the worker; it may do so only when every transaction is final or the run was aborted')
+    # validation claim in next(): version = (claimed index, incarnation read under the lock)
+    bad = []
+    n = 0
+    for p in feasible(g.paths()):
+        ret = [e for e in p.events if e.kind == 'ret'][0].d['value']
+        if ret[0] == 'agg' and ret[2] == 'Some' and ret[3][0][0] == 'agg' and ret[3][0][2] == 'Validation':
+            n += 1
+            tv = ret[3][0][3][0]
+            args = tv[2] if tv[0] == 'call' else tv[3]
+            cl = [e for e in p.events if is_call(e, 'SchedulerContext::next_validation_idx')]
+            ok = cl and mentions(args[0], cl[-1].d['result']) and is_field(strip(args[1]), 'TxState.incarnation') and mentions(args[1], cl[-1].d['result'])
+            if not ok:
+                bad.append(p)
+    ctx.ob('L8', g, 'validation-claim-carries-locked-incarnation', n >= 1 and not bad, f'{len(bad)} deviating path(s)', site=g.loc(g.b['lo']),
+           what='a validation task names the claimed index and the incarnation read under TS[index]; validate() refuses a mismatch as an inconsistency')
+
+
+def X7_conflict_flag(ctx):
+    """execute_task success arm: Conflict ⇔ the attempt met a blocker (is_blocked of ITS accesses)"""
+    f = sched(ctx, 'execute_task')
+    bad = []
+    n = 0
+    for p in feasible(f.paths()):
+        att = [e for e in p.events if is_call(e, '::execute_incarnation')]
+        if not att:
+            continue
+        res = att[0].d['result']
+        arm = [a for a in p.events if a.kind == 'atom' and a.d['term'][0] == 'discr' and mentions(a.d['term'][1], res) and mentions_field(a.d['term'][1], 'IncarnationExecution.result')]
+        st = assigns(p, 'TxState.status')
+        if not arm or arm[0].d['outcome'] != 'Ok' or not st:
+            continue
+        n += 1
+        bl = [a for a in p.events if a.kind == 'atom' and a.d['term'][0] == 'call' and a.d['term'][1].endswith('IncarnationAccesses::is_blocked') and mentions(a.d['term'], res)]
+        if not bl:
+            bad.append(p)
+            continue
+        blocked = bl[0].d['outcome'] == 'true'
+        if (variant_of(st[0].d['value']) == 'Conflict') != blocked:
+            bad.append(p)
+        adds = calls(p, 'TxDependency::add')
+        if blocked and not (adds and has_call(adds[0].d['args'][2], 'Scheduler::latest_unfinalized_blocker') and mentions(adds[0].d['args'][2], res)):
+            bad.append(p)
+    ctx.ob('X7', f, 'conflict-iff-attempt-was-blocked', n >= 4 and not bad, f'{len(bad)} deviating path(s): ' + (describe(bad[0], 8) if bad else ''), site=f.loc(f.b['lo']),
+           what='a successful attempt that read an estimate published estimate writes and must be re-executed (Conflict, parked behind its latest unfinalised blocker); an unblocked one is Executed')
+    pe = sched(ctx, 'parallel_execute_inner')
+    okp = False
+    for p in feasible(pe.paths()):
+        ins = [e for e in p.events if is_call(e, 'Scheduler::install_commit_loop_result')]
+        po = [e for e in p.events if e.kind == 'call' and norm_callee(e.d['callee']).endswith('::post_execute')]
+        if ins and po and mentions(po[0].d['args'][1], ins[0].d['result']) and idx_of(p, ins[0]) < idx_of(p, po[0]):
+            okp = True
+    ctx.ob('N12', pe, 'post-execute-gets-the-installed-boundary', okp, '', site=pe.loc(pe.b['lo']),
+           what='recovery/replay starts from the boundary whose outcomes were just installed')
